@@ -2,9 +2,9 @@
 import verif as V
 
 PROP = "C04"
-SPEC = ["Bng.Spec.C04", "Bng.Spec.C04Auth"]
+SPEC = ["Bng.Spec.C04", "Bng.Spec.C04Auth", "Bng.Spec.C16PppoeWhole"]
 COMPS = [
-    V.Component("pppoesrv", monitors=["service-without-auth", "ipcp-without-auth", "foreign-mac"]),
+    V.Component("pppoesrv", monitors=["service-without-auth", "ipcp-without-auth", "foreign-mac", "obs-roundtrip"]),
     V.Component("pppauth", monitors=["success-without-accept", "wrong-protocol", "stale-challenge", "id-mismatch"]),
 ]
 LEVEL = ("service_requires_auth, ipcp_ack_requires_auth, foreign_mac_inert and ghost_set_only_by_accepted_pap are "
